@@ -154,7 +154,7 @@ def main():
     })
     c.assumptions += [
         'every input runs on a fresh instance (reproducible units); "afterwards still decodes correctly" is decided by the probe at the end of the same execution',
-        'bounded work: handler loop iterations <= 64*(len+16)+2000 and virtual time <= 2*len+120 s per input (fuzz_bus); a unit running > 25 s real time is a hang '
+        'bounded work: handler loop iterations <= 64*(len+16)+2000 per input and <= 3000 for the probe (fuzz_bus); a unit running > 25 s real time is a hang '
         '(watchdog thread on the monotonic clock, because the wall clock is virtual while a unit runs)',
         'leaks: only leaked request objects (allocation stack through a *Request* class) are part of the statement; other at-exit leak reports are listed under '
         'per_target.other_leaks and not judged',
